@@ -158,6 +158,9 @@ func (bal *BalanceGslb) Reload(gslbConf gslb_conf.GslbClusterConf) error {
 	// create new SubClusterList
 	var subListNew SubClusterList
 
+	// sub clusters not in gslbConf; released only after gslbConf is known to be usable
+	var subListRelease SubClusterList
+
 	// create a map to record exist subCluster in gslbConf
 	subExist := make(map[string]bool)
 
@@ -175,9 +178,8 @@ func (bal *BalanceGslb) Reload(gslbConf gslb_conf.GslbClusterConf) error {
 			// add sub cluster to subListNew
 			subListNew = append(subListNew, sub)
 		} else {
-			// release sub_cluster
-			sub.release()
-			log.Logger.Info("release subcluster %s", sub.Name)
+			// release sub_cluster (deferred, see below)
+			subListRelease = append(subListRelease, sub)
 		}
 
 		// record in the map of subExist
@@ -218,6 +220,14 @@ func (bal *BalanceGslb) Reload(gslbConf gslb_conf.GslbClusterConf) error {
 		// should never be here, as ClusterCheck return true
 		log.Logger.Critical("gslb total weight = 0 [%s]", bal.name)
 		return fmt.Errorf("gslb total weight = 0 [%s]", bal.name)
+	}
+
+	// release sub clusters which are removed from bal.subClusters below.
+	// Note: must not be done before the check above: on error bal.subClusters is kept,
+	// and a released sub cluster in it would be selectable and released again later
+	for _, sub := range subListRelease {
+		sub.release()
+		log.Logger.Info("release subcluster %s", sub.Name)
 	}
 
 	bal.totalWeight = totalWeight
